@@ -321,6 +321,42 @@ impl SimFs {
         }
     }
 
+    /// the file system a new process finds after a crash: under `model_b` every file reverts to
+    /// its content at its last sync; whatever survived is durable from then on
+    pub fn settled(&self, model_b: bool) -> SimFs {
+        let mut out = self.clone();
+        for ino in out.inodes.iter_mut() {
+            if model_b {
+                ino.data = ino.durable.clone().unwrap_or_default();
+            }
+            ino.durable = Some(ino.data.clone());
+        }
+        out
+    }
+
+    /// fingerprint of the image a crash would leave
+    pub fn fingerprint(&self, model_b: bool) -> u64 {
+        let mut hsh: u64 = 0xcbf29ce484222325;
+        let fnv = |bs: &[u8]| -> u64 {
+            let mut h: u64 = 0xcbf29ce484222325;
+            for b in bs {
+                h ^= *b as u64;
+                h = h.wrapping_mul(0x100000001b3);
+            }
+            h
+        };
+        for (path, &i) in &self.files {
+            hsh = hsh.wrapping_mul(0x100000001b3) ^ fnv(path.as_bytes());
+            let ino = &self.inodes[i];
+            let c: &[u8] = if model_b { ino.durable.as_deref().unwrap_or(&[]) } else { &ino.data };
+            hsh = hsh.wrapping_mul(0x100000001b3) ^ fnv(c);
+        }
+        for d in &self.dirs {
+            hsh = hsh.wrapping_mul(0x100000001b3) ^ fnv(d.as_bytes());
+        }
+        hsh
+    }
+
     /// write the image under `root`; `model_b`: unsynced bytes are lost
     pub fn materialize(&self, root: &str, model_b: bool) -> std::io::Result<()> {
         let _ = std::fs::remove_dir_all(root);
